@@ -222,7 +222,8 @@ Lemma finish_group_nd : forall dec t g fl a r,
   finish_group dec t g fl a = POk r -> Forall rleaf_nd (decl_rleaves r).
 Proof.
   intros dec t g fl a r Hnd H. unfold finish_group in H. destruct dec.
-  - destruct t; try discriminate H. injection H as <-. cbn. constructor; [|constructor].
+  - destruct fl; [discriminate H|].
+    destruct t; try discriminate H. injection H as <-. cbn. constructor; [|constructor].
     constructor; [intros []|constructor].
   - injection H as <-. cbn. constructor; [exact Hnd|constructor].
 Qed.
